@@ -98,18 +98,21 @@ Theorem C11_tmpbuf_fullsize_fits : forall comp width ss,
 Proof. exact tmpbuf_fullsize_fits. Qed.
 Print Assumptions C11_tmpbuf_fullsize_fits.
 
-(* ... with IDCT scaling it need not.  tmp_rows_cover_pw is read from the CURRENT turbojpeg.c: with
-   temporary rows iw[i] apart (false) the copy-out of tj3DecompressToYUVPlanes8 reads past the end
-   of _tmpbuf (faithful model of the code as found = finding F10, replayed on the implementation
-   by the check); with rows MAX(iw[i], pw[i]) apart (true) every copy-out read is inside _tmpbuf *)
-Theorem C11_tmpbuf_copyout_wide_inside : copyout_inside true.
+(* ... and with IDCT scaling (every JPEG width, subsampling, component, scaling factor >= 1/den,
+   temporary row j) the copy-out of pw bytes of tj3DecompressToYUVPlanes8 starts at temporary row j,
+   stays inside that row and inside _tmpbuf, the rows being MAX(iw[i], pw[i]) apart *)
+Theorem C11_tmpbuf_copyout_inside : copyout_inside true.
 Proof. exact tmpbuf_copyout_wide_inside. Qed.
-Print Assumptions C11_tmpbuf_copyout_wide_inside.
+Print Assumptions C11_tmpbuf_copyout_inside.
 
-Theorem C11_tmpbuf_copyout_refuted : copyout_overreads false.
+(* why MAX is needed: with rows iw[i] apart (the code before 31d7b0f, finding F10) the copy-out
+   reads past the end of _tmpbuf (4:1:1, one pixel wide, 1/8) *)
+Theorem C11_tmpbuf_narrow_rows_refuted : copyout_overreads false.
 Proof. exact tmpbuf_copyout_overread. Qed.
-Print Assumptions C11_tmpbuf_copyout_refuted.
+Print Assumptions C11_tmpbuf_narrow_rows_refuted.
 
+(* tmp_rows_cover_pw is read from the CURRENT turbojpeg.c by tools/gen_Align.py: which of the two
+   statements describes the source under test *)
 Theorem C11_tmpbuf_copyout_current :
   if tmp_rows_cover_pw then copyout_inside true else copyout_overreads false.
 Proof. exact tmpbuf_copyout_current. Qed.
